@@ -201,7 +201,12 @@ fn expected(case: &Case, chunks: &[Vec<u8>]) -> (Vec<F>, bool) {
         for d in chunks {
             let d = &d[..d.len().min(bufsize)];
             if case.discard {
-                out.extend(rl::scan_discard_complete(d).frames.iter().map(|(_, f)| from_ref(f)));
+                out.extend(
+                    rl::scan_discard_complete(d)
+                        .frames
+                        .iter()
+                        .map(|(_, f)| from_ref(f)),
+                );
             } else {
                 let s = rl::scan_close(d);
                 out.extend(s.frames.iter().map(|(_, f)| from_ref(f)));
